@@ -213,7 +213,8 @@ pub fn run(tier: Tier, replay: Option<&str>) -> i32 {
     let mut picked: Vec<&c02::Case> = vec![];
     let mut seen = std::collections::HashSet::new();
     for c in &scope.cases {
-        if c.family.starts_with('A') || c.family.starts_with('H') {
+        // the every-quota sweep is quadratic in the message size: the longest length-boundary messages stay with C02
+        if c.family.starts_with('A') || c.family.starts_with('H') || c.bytes.len() > 700 {
             continue;
         }
         if seen.insert((c.bytes.clone(), c.etys.clone())) {
